@@ -22,7 +22,7 @@ func init() {
 			"in active form, after sealing and after a restart; oracle = set-semantics model; with repeats inside one fraction totals/histograms/aggregations/DocsTotal are judged too; " +
 			"runs under the race detector; non-trivial = history contains >=1 repeat and the request matches some documents; distinct = (history class, form, request kind)",
 		Assumptions: []string{"a repeat carries the same bytes and tokens as the original (it is the same bulk payload, as on proxy retries)"},
-		Batches:     tiered(48, 400),
+		Batches:     tiered(144, 3200),
 		Run:         runC17,
 		Race:        true,
 		Timeout:     timeoutFor(10*time.Minute, 45*time.Minute),
